@@ -398,6 +398,27 @@ def case_roundtrip(ctx, spec):
     except Exception as e:
         _v(ctx, 'C12/second-generation-raised', f'decoding the re-encoded text raised {type(e).__name__}: {e}',
            dict(w, text2=txt2))
+        return
+    # every decode gives a set of its own: editing list-valued details of one decoded set (the ordinary read-modify-write) does not
+    # show in the next decode of the same text
+    edited = 0
+    import copy as _copy
+    ob = _copy.deepcopy(ob)          # (the observation may hold the very list objects that are edited next)
+    for dl in back.get_delegations_as_list():
+        det = dl.get_details()
+        for k, v in (det.__dict__.items() if det is not None else ()):
+            if isinstance(v, list):
+                v.append('__edited__')
+                edited += 1
+    if edited:
+        ctx.count('clause:decodes-are-independent')
+        try:
+            again = D.Delegations.from_json(json_str=txt, atype=T(tname))
+            if again is None or obs_delegations(again) != ob:
+                _v(ctx, 'C12/decode-shares-details-with-earlier-decode', 'a delegation set decodes back to the same delegations with the same '
+                   'details - whatever was done to a set decoded from that text earlier', dict(w, text=txt, observed=obs_delegations(again) if again else None))
+        except Exception as e:
+            _v(ctx, 'C12/roundtrip-decode-raised', f'decoding the same text again raised {type(e).__name__}: {e}', dict(w, text=txt))
 
 
 def case_empty(ctx, spec):
